@@ -50,6 +50,17 @@ def run(ctx):
     ctx.attempt(_r10)
     ctx.attempt(_r11)
     ctx.attempt(_r12)
+    ctx.attempt(_r13)
+
+
+def _r13(ctx):
+    """R-C11-13 (= R-C08-11, the same rule under this property): the Gassner clause compares `lifetime_multiple`, which places
+    the knee at the 50 % endurance limit, with `Fatigue.damage`, which evaluates `cycles(load, 0.5)`.  Both describe one curve
+    only if the Woehler accessor evaluates the curve TRANSFORMED to the requested probability on every path; a shortcut that
+    uses the curve as given for the default probability makes the damage of the Haibach Gassner cycles differ from one for
+    every curve whose native failure probability is not 50 %."""
+    from . import c08
+    c08._r11(ctx, "R-C11-13")
 
 
 def class_selections(fn_node, ret_expr):
